@@ -20,7 +20,7 @@ def main():
         final = load(ROOT / e["final"]) if e.get("final") else first
         prop = sid[:3]
         det = {c: {k: v for k, v in r.items() if k in ("exit", "violations", "clauses")} for c, r in final["checks"].items()}
-        missed_first = first["checks"][prop]["exit"] != 1
+        missed_first = first["checks"][prop]["exit"] != 1 or bool(e.get("arrival_note"))
         meta = {
             "property": prop,
             "what": e["what"],
@@ -32,7 +32,9 @@ def main():
             "detected": det,
             "source": e["round"],
         }
-        if missed_first:
+        if e.get("arrival_note"):
+            meta["history"] = e["arrival_note"]
+        elif missed_first:
             meta["history"] = "missed by the check as it was when the seed arrived; detected after the strengthening described in DESIGN.md §11.5"
         (ROOT / "seeded" / sid / "meta.json").write_text(json.dumps(meta, indent=1))
         print(sid, "missed-on-arrival" if missed_first else "detected-on-arrival", meta["detect_with"])
